@@ -58,10 +58,7 @@ def typedStep (funcs : List (Name × Func)) (consts : List (Name × ConstSem)) (
      bad (ps.length == f.params.length) "argument-count" ++
      bad ((ps.zip f.params).all fun (a, t) => a.ty == t) "argument-type" ++
      bad (ps.all (operandOk e)) "argument-operand-type")
-  | .ext tag reg =>
-    match exts.find? (·.1 == tag) with
-    | some (_, t) => ({ e with regs := (reg, .prim t) :: e.regs }, [])
-    | none => (e, [])
+  | .ext _ t reg => ({ e with regs := (reg, .prim t) :: e.regs }, [])
   | .letBinding v x =>
     ({ e with decls := v :: e.decls }, bad (operandOk e x) "initialiser-operand-type" ++ bad (v.ty == x.ty) "let-type-differs-from-initialiser")
   | .binding v x =>
